@@ -27,6 +27,12 @@ Search: the property stated on the implementation alone: same bytes as the local
 failed request, every thread started has finished (threading.enumerate()), no deadlock — over model-independent schedules
 (random priority policies and the adversarial ones).
 
+Free runs (round 7): the same oracle on runs where NOTHING of the standard library is replaced (whatever queue class, lock or pool
+the fetching code uses runs as it is, OS threads, a fresh interpreter): a fault on request k of n with w workers, the fake server
+holding answers back so that the error arrives when the fetched blocks are already queued / before any of them / as they come;
+the call runs under a time limit: 'did not terminate' is an observation.  A queue class the source imports that has no double
+(PriorityQueue ...) also runs as it is in the controlled runs (its operations are not control points).
+
 After the call: the controller notes the moment every observed call (a strategy call, a CopcReader.query) returns or raises -
 which of the threads it started are not finished and what each is about to do, how many requests the server has seen - and keeps
 driving those threads: any operation for a range (request, seek, result published, task_done, job begun) or any range request after
@@ -525,12 +531,20 @@ class FakeSession:
         fault = w.fault_for(start, n)
         if fault is None and (start >= len(w.file) or n <= 0):
             fault = (416, "empty")                      # what a server answers for a range outside the resource
-        if fault is not None:
-            w.failed.append((start, n))
-            if fault[0] < 0:
-                raise FakeHTTPError(start, n, -1)
-            return FakeResponse(fault[0], error_body(fault[1], n), (start, n))
-        return FakeResponse(206, bytes(w.file[start:end + 1]), (start, n))
+        if hasattr(w, "hold"):                          # a free run: the server orders its answers
+            w.hold(fault)
+            w.cv.acquire()
+            w.cv.release()
+        try:
+            if fault is not None:
+                w.failed.append((start, n))
+                if fault[0] < 0:
+                    raise FakeHTTPError(start, n, -1)
+                return FakeResponse(fault[0], error_body(fault[1], n), (start, n))
+            return FakeResponse(206, bytes(w.file[start:end + 1]), (start, n))
+        finally:
+            if hasattr(w, "answered"):
+                w.answered(fault is not None)
 
     def close(self):
         self.closed = True
@@ -810,6 +824,7 @@ def range_of_exc(ex):
 
 
 _PATCH_LOCK = threading.Lock()
+_ABSENT = object()
 
 
 class Patched:
@@ -823,8 +838,13 @@ class Patched:
         import laspy.copc as copc
         _PATCH_LOCK.acquire()
         self.copc = copc
-        self.saved = {k: getattr(copc, k) for k in ("Queue", "SimpleQueue", "HttpRangeStream", "ThreadPoolExecutor",
-                                                   "requests_retry_session", "requests")}
+        # a name the module does not (or no longer) import is put there for the run and removed afterwards; a queue class it
+        # imports that has no double (PriorityQueue, LifoQueue ...) runs as it is: its operations are not control points
+        self.saved = {k: getattr(copc, k, _ABSENT) for k in ("Queue", "SimpleQueue", "HttpRangeStream", "ThreadPoolExecutor",
+                                                             "requests_retry_session", "requests")}
+        if self.saved["HttpRangeStream"] is _ABSENT or self.saved["ThreadPoolExecutor"] is _ABSENT:
+            _PATCH_LOCK.release()
+            raise RuntimeError("laspy.copc has no HttpRangeStream / ThreadPoolExecutor")
         real_stream = copc.HttpRangeStream
         real_tpe = copc.ThreadPoolExecutor
         ctl, world = self.ctl, self.world
@@ -896,11 +916,11 @@ class Patched:
         copc.SimpleQueue = CtlSimpleQueue
         copc.HttpRangeStream = InstrStream
         copc.ThreadPoolExecutor = CtlExecutor
-        if copc.requests is None or not install_net(world):
+        if getattr(copc, "requests", None) is None or not install_net(world):
             # no requests package (or the session double asked for): the double is the session
             world.stack = "double"
             copc.requests_retry_session = lambda *a, **k: FakeSession(world)
-            if copc.requests is None:
+            if getattr(copc, "requests", None) is None:
                 copc.requests = object()
         self.stream_cls = InstrStream
         threading.Thread.start = _patched_start
@@ -931,7 +951,11 @@ class Patched:
         threading.Thread.start = _ORIG_START
         threading.excepthook = self.hook
         for k, v in self.saved.items():
-            setattr(self.copc, k, v)
+            if v is _ABSENT:
+                if hasattr(self.copc, k):
+                    delattr(self.copc, k)
+            else:
+                setattr(self.copc, k, v)
         _PATCH_LOCK.release()
         return False
 
@@ -1731,7 +1755,12 @@ RULE = ("inputs: a fake file of random non-zero bytes, 1..6 disjoint byte ranges
         "CopcReader queries whose data requests all fail, a reader whose header cannot be read, then queries on the old and on new readers; "
         "after the failures: healthy calls (1 and many workers, both strategies, a direct read) - every call must return the local read of ITS "
         "ranges or raise the error of one of ITS failed requests, no call may block, no thread may be left; each call is also replayed in the "
-        "model as a run of its own. end to end: CopcReader.query over the fake http source vs the local bytes on generated "
+        "model as a run of its own. FREE RUNS (nothing of the standard library replaced: the queue / pool / thread classes the source uses "
+        "run as they are, OS threads, one fresh interpreter): a fault (error status with any body, dropped / refused connection) on request "
+        "k of n = 1..6 (first / inner / last; two faults; none) with w workers (1, fewer than n, n, 8), both strategies, the fake server holding "
+        "answers back so that the error arrives when every fetched block is already queued / before any block / as they come; each call "
+        "under a time limit (not returning or raising within it = 'did not terminate'), judged by the oracle alone (the error of a failed "
+        "request or the local read; no thread left, none died of an exception). end to end: CopcReader.query over the fake http source vs the local bytes on generated "
         "COPC files (chunks laid out deepest level first / in level order / randomly, with gaps; nodes without points: none / root / "
         "inner / some / all; BIG files first: chunks of 10^4 .. 10^5 records of 31 bytes, so that the chunks a level / the whole file "
         "selects are ONE byte range over 1 MiB, over 2 MiB, over 4 MiB (thorough: over 8 MiB) whose size S leaves a remainder when "
@@ -1960,6 +1989,11 @@ def search(ctx, seeds):
     if not _HISTORIES:
         _HISTORIES.extend(run_histories(ctx))
     first = history_failures(ctx, _HISTORIES)
+    # the free runs (nothing of the standard library replaced) go on in an interpreter of their own meanwhile
+    free_box = {}
+    free_cs = free_cases(ctx)
+    free_t = threading.Thread(target=lambda: free_box.update(found=free_runs(ctx, free_cs)), name="c16-free-runs", daemon=True)
+    free_t.start()
     failing = []
     seen = set()
     try:
@@ -2003,7 +2037,12 @@ def search(ctx, seeds):
     # the inputs of one call that show alone come first (they are the smallest), then the histories, then what only showed
     # after the earlier runs of this process
     alone = [f for f in failing if not f["kind"].startswith("only after")]
-    return alone[:3] + first + alone[3:] + [f for f in failing if f["kind"].startswith("only after")]
+    free_t.join(ctx.n(120, 700))
+    free = free_box.get("found")
+    if free is None:
+        ctx.notes.append("the free runs did not come back")
+        free = []
+    return alone[:3] + free + first + alone[3:] + [f for f in failing if f["kind"].startswith("only after")]
 
 
 def probe_short_success_body(ctx):
@@ -2054,6 +2093,8 @@ def shrink(c, res, kind):
 
 def replay_run(inp):
     """runs a failing input again (its recorded schedule): (bad or None, result)"""
+    if inp.get("free"):
+        return free_replay(inp)
     if inp.get("history") == "e2e":
         res = run_e2e_history(bytes.fromhex(inp["file_hex"]), inp["steps"], schedule=list(inp.get("schedule") or []))
         return e2e_history_oracle(inp["steps"], res), res
@@ -3011,6 +3052,247 @@ def policy_from_spec(spec):
     return make_policy(prio, rng.choice(["low", "high"]), rng.choice([0.0, 0.3, 1.0]), rng)
 
 
+# ------------------------------------------------------------------------------------------------ free runs (stdlib as it is)
+# The controlled runs replace the queue / thread-pool classes laspy.copc uses today by doubles.  A FREE run replaces nothing of the
+# standard library: whatever queue class, lock, pool or thread the fetching code uses runs as it is, in a fresh interpreter, on OS
+# threads; the only double is the server (below laspy's session, as in the controlled runs), which also ORDERS the answers by holding
+# them back: 'errors last' = the answer of a failing request is held until every healthy range has been answered (the fetched
+# blocks are already queued when the error is published), 'errors first' = the healthy answers are held until a failing request
+# has been answered, 'as they come'.  The call runs in a thread of its own under a time limit: not returning / raising within it is
+# the observation 'did not terminate'.  Judged by the property alone: the error of a failed request, or the local read; every
+# thread the call started has finished.
+FREE_LIMIT = 6.0     # seconds one call may take (it makes at most 6 requests answered from memory)
+FREE_GRACE = 3.0     # seconds the threads a call started are given to finish after it returned / raised
+FREE_HOLD = 0.15     # seconds an answer is held back at most (the condition it waits for may never come: 1 worker)
+ORDERS = ["errors last", "errors first", "as they come"]
+
+
+class FreeWorld(World):
+    def __init__(self, file, faults, order, n_ok, stack=None):
+        World.__init__(self, file, faults, stack=stack)
+        self.order = order
+        self.n_ok = n_ok
+        self.cv = threading.Condition()
+        self.ok_done = 0
+        self.bad_done = 0
+
+    def hold(self, fault):
+        """called before the first answer to a range request is given"""
+        if self.order == "errors last" and fault is not None:
+            cond = lambda: self.ok_done >= self.n_ok       # noqa
+        elif self.order == "errors first" and fault is None:
+            cond = lambda: self.bad_done >= 1              # noqa
+        else:
+            return
+        with self.cv:
+            met = self.cv.wait_for(cond, FREE_HOLD)
+        if met:
+            time.sleep(0.02)                               # the block answered last is on its way into the result queue
+
+    def answered(self, failed):
+        with self.cv:
+            if failed:
+                self.bad_done += 1
+            else:
+                self.ok_done += 1
+            self.cv.notify_all()
+
+    def attempt(self, rec):
+        first = not rec[1]
+        fault = World.attempt(self, rec)
+        if first and rec[0] != NONRANGE:
+            self.hold(fault)
+        return fault
+
+    def end(self, rec, how):
+        fresh = rec[2] is None
+        World.end(self, rec, how)
+        if fresh and rec[0] != NONRANGE:
+            self.answered(how in ("raised", "cut") or (isinstance(how, int) and 400 <= how < 600))
+
+
+def run_free(mode, file, ranges, workers, faults, order, limit=None):
+    """one call of a strategy with nothing of the standard library replaced; dict(outcome, hung, alive, errors, requests, failed)"""
+    import laspy.copc as copc
+    limit = FREE_LIMIT if limit is None else limit
+    n_ok = sum(1 for r in ranges if r[1] > 0 and tuple(r) not in faults)
+    world = FreeWorld(file, faults, order, n_ok)
+    before = set(threading.enumerate())
+    box = {}
+    errors = []
+
+    def target():
+        try:
+            src = copc.HttpRangeStream(URL)
+            out = bytearray(sum(n for _, n in ranges))
+            getattr(copc, STRATEGY_FN[mode])(src, list(ranges), out, workers)
+            box["out"] = ("returned", bytes(out))
+        except Exception as ex:  # noqa
+            rng = range_of_exc(ex)
+            box["out"] = ("raised", rng) if rng is not None else ("error", common.exc_kind(ex) + ": " + str(ex)[:120])
+
+    with _PATCH_LOCK:
+        saved_rrs = getattr(copc, "requests_retry_session", _ABSENT)
+        saved_req = getattr(copc, "requests", _ABSENT)
+        hook = threading.excepthook
+        threading.excepthook = lambda a: errors.append(f"{a.thread.name if a.thread else '?'}: {a.exc_type.__name__}: {str(a.exc_value)[:120]}")
+        try:
+            if getattr(copc, "requests", None) is None or not install_net(world):
+                world.stack = "double"
+                copc.requests_retry_session = lambda *a, **k: FakeSession(world)
+                if getattr(copc, "requests", None) is None:
+                    copc.requests = object()
+            t = threading.Thread(target=target, name="c16-free-call", daemon=True)
+            t0 = time.time()
+            t.start()
+            t.join(limit)
+            hung = t.is_alive()
+            seconds = time.time() - t0
+            t_end = time.time() + (0.3 if hung else FREE_GRACE)
+            mine = [x for x in threading.enumerate() if x not in before and x is not t]
+            for x in mine:
+                x.join(max(0.0, t_end - time.time()))
+            alive = [f"{type(x).__name__} {x.name}" for x in mine if x.is_alive()]
+        finally:
+            uninstall_net()
+            threading.excepthook = hook
+            for k, v in (("requests_retry_session", saved_rrs), ("requests", saved_req)):
+                if v is _ABSENT:
+                    if hasattr(copc, k):
+                        delattr(copc, k)
+                else:
+                    setattr(copc, k, v)
+    return {"outcome": box.get("out", ("none", None)), "hung": hung, "alive": alive, "errors": errors, "seconds": round(seconds, 2),
+            "events": [], "leaked": alive, "requests": [list(r) for r in world.requests], "failed": [tuple(r) for r in world.failed], "faults": dict(faults),
+            "stack": world.stack, "limit": limit}
+
+
+def free_oracle(mode, file, ranges, failing, res):
+    """the property on one free run: None or (kind, observed)"""
+    kind0 = f"{mode}-strategy, standard library as it is: "
+    asked = f"{len(res['requests'])} range requests had been made ({len(res['failed'])} answered with an error: {[list(r) for r in res['failed']][:4]}); "
+    threads = f"threads the call started that are still alive: {res['alive'] or 'none'}; exceptions that ended a thread: {res['errors'][:3] or 'none'}"
+    if res["hung"]:
+        return (kind0 + "the call did not terminate",
+                f"neither returned nor raised within {res['limit']:.0f} s (a fault-free call of this size takes milliseconds); " + asked + threads)
+    out = res["outcome"]
+    fails_here = must_fail(ranges, failing, res)
+    if not fails_here:
+        want = local_read(file, ranges)
+        if out[0] != "returned":
+            return kind0 + "exception although no request failed", f"{short(out)}; " + threads
+        if out[1] != want:
+            return kind0 + "bytes differ from the local read", f"got {out[1].hex()} want {want.hex()}"
+    else:
+        if out[0] == "returned":
+            return kind0 + "failed request swallowed, data returned", f"failing {fails_here} returned {out[1].hex()}"
+        if out[0] != "raised" or out[1] not in fails_here:
+            return kind0 + "failed request surfaced as something else", f"{short(out)}; " + asked + threads
+    if res["alive"]:
+        return kind0 + "thread still alive after the call", f"{FREE_GRACE:.0f} s after the call {out[0]}: " + threads
+    if res["errors"]:
+        return kind0 + "a thread the call started died of an exception", threads
+    return None
+
+
+def free_cases(ctx):
+    """a fault on request k of n with w workers (k first / inner / last; w = 1, fewer than n, n, more), one or two faults or none,
+    every order of answers, both strategies"""
+    rng = ctx.rng
+    out = []
+    core = [("queue", 3, 1, (1,), "errors last"), ("queue", 4, 2, (2,), "errors last"), ("queue", 3, 3, (0,), "errors last"),
+            ("queue", 4, 1, (0, 2), "errors first"), ("queue", 3, 2, (2,), "errors first"), ("queue", 5, 8, (1, 3), "as they come"),
+            ("exec", 3, 1, (1,), "errors last"), ("exec", 4, 2, (0,), "errors first"), ("queue", 4, 2, (), "as they come"),
+            ("exec", 5, 3, (), "errors last")]
+    for mode, n, w, ks, order in core:
+        out.append((mode, n, w, ks, order))
+    for _ in range(ctx.n(6, 60)):
+        n = rng.randint(1, 6)
+        w = rng.choice([1, 1, 2, max(1, n - 1), n, 8])
+        r = rng.random()
+        ks = () if r < 0.15 else tuple(sorted(rng.sample(range(n), 1 if r < 0.75 or n < 2 else 2)))
+        out.append((rng.choice(["queue", "queue", "exec"]), n, w, ks, rng.choice(ORDERS)))
+    cases = []
+    for k, (mode, n, w, ks, order) in enumerate(out):
+        file = make_file(rng, 40)
+        ranges = make_ranges(rng, n, 40, empties="none" if k % 4 else "first")
+        failing = [ranges[i] for i in ks if ranges[i][1] > 0]
+        fl = FAULTS + RAISING
+        faults = {r: tuple(fl[(k * 7 + j) % len(fl)][:2]) for j, r in enumerate(failing)}
+        cases.append({"strategy": mode, "free": True, "file_hex": file.hex(), "ranges": [list(r) for r in ranges], "workers": w,
+                      "failing": [list(r) + list(faults[r]) for r in failing], "answers": order, "limit_seconds": FREE_LIMIT})
+    return cases
+
+
+def free_replay(inp, limit=None):
+    file = bytes.fromhex(inp["file_hex"])
+    ranges = [tuple(r) for r in inp["ranges"]]
+    faults = {tuple(r[:2]): tuple(r[2:]) for r in inp["failing"]}
+    res = run_free(inp["strategy"], file, ranges, inp["workers"], faults, inp.get("answers", "as they come"),
+                   limit=limit or inp.get("limit_seconds"))
+    return free_oracle(inp["strategy"], file, ranges, tuple(faults), res), res
+
+
+def free_shrink(inp, kind):
+    """fewer ranges / workers showing the same class of failure (each try is a run of its own)"""
+    n = len(inp["ranges"])
+    tries = 0
+    for n2 in range(1, n + 1):
+        for w2 in sorted({1, min(2, inp["workers"]), inp["workers"]}):
+            if (n2, w2) == (n, inp["workers"]) or tries >= 8:
+                continue
+            rs = inp["ranges"][:n2]
+            fl = [f for f in inp["failing"] if f[:2] in rs]
+            if inp["failing"] and not fl:
+                continue
+            inp2 = dict(inp, ranges=rs, workers=w2, failing=fl)
+            tries += 1
+            bad, res = free_replay(inp2)
+            if bad is not None and bad[0] == kind:
+                return inp2, bad, res
+    return None
+
+
+def run_free_job(job):
+    """in the fresh interpreter: the free runs one after the other; the first two failing classes, each shrunk"""
+    found, stats = [], {"runs": 0, "hangs": 0, "seconds": 0.0}
+    t0 = time.time()
+    for inp in job["cases"]:
+        if len(found) >= 2 or stats["hangs"] >= 2 or time.time() - t0 > job.get("budget", 60.0):
+            break
+        bad, res = free_replay(inp)
+        stats["runs"] += 1
+        if bad is None or any(f["kind"] == bad[0] for f in found):
+            continue
+        stats["hangs"] += int(res["hung"])
+        small = free_shrink(inp, bad[0]) if job.get("shrink", True) else None
+        if small is not None:
+            inp, bad, res = small
+            stats["hangs"] += int(res["hung"])
+        found.append({"kind": bad[0], "input": inp, "observed": bad[1],
+                      "expected": ("the call raises the error of one of the failed requests " + str([f[:2] for f in inp["failing"]])
+                                   if inp["failing"] else "the call returns the local read") + f" within {FREE_LIMIT:.0f} s; every thread it started has finished"})
+    stats["seconds"] = round(time.time() - t0, 1)
+    return {"bad": None, "res": None, "found": found, "stats": stats}
+
+
+def free_runs(ctx, cases):
+    """the free runs of this check, in ONE fresh interpreter: list of failing inputs"""
+    for c in cases:
+        ks = tuple(k for k, r in enumerate(c["ranges"]) if any(f[:2] == r for f in c["failing"]))
+        ctx.case(("free", c["strategy"], len(c["ranges"]), c["workers"], ks, c["answers"], c["file_hex"]), nontrivial=bool(ks))
+        ctx.count("free-run:" + c["strategy"] + ":" + c["answers"])
+        ctx.count("free-run:workers=" + ("1" if c["workers"] == 1 else "fewer than ranges" if c["workers"] < len(c["ranges"]) else "ranges or more"))
+    r = in_fresh_process({"kind": "free", "cases": cases, "budget": ctx.n(40.0, 300.0)}, timeout=ctx.n(90, 600))
+    if r.get("crash"):
+        ctx.notes.append("free runs could not be made: " + r["crash"][-600:])
+        return []
+    if r.get("bad"):          # the interpreter had to be killed
+        return [{"kind": "free runs (standard library as it is): " + r["bad"][0], "input": {"free_cases": cases}, "observed": r["bad"][1]}]
+    ctx.extra["free_runs"] = r.get("stats")
+    return list(r.get("found") or [])
+
+
 # ---- the fresh interpreter
 def jsonable(x):
     if isinstance(x, (bytes, bytearray)):
@@ -3065,7 +3347,7 @@ def child_main():
     WAIT = float(job.get("wait", CHILD_WAIT))
     RUN_LIMIT = float(job.get("limit", 900.0))
     try:
-        out = run_job(job)
+        out = run_free_job(job) if job.get("kind") == "free" else run_job(job)
     except BaseException as ex:  # noqa
         import traceback
         out = {"crash": traceback.format_exc()[-1500:], "bad": None, "res": None}
